@@ -51,3 +51,34 @@ Example C06_nonvacuous :
      (111, 0, [4;0;0;0;0;0;0;0]); (111, 0, [5;0;0;0;0;0;0;0])].
 Proof. vm_compute. reflexivity. Qed.
 Print Assumptions C06_nonvacuous.
+
+(* "an unsupported or unroutable request is answered by one frame with a non-zero encapsulation status": a single request whose path
+   names an Object that does not exist gets exactly one frame - status 8, no payload, its own session handle, context and options -
+   the state is untouched and no later request of the session is answered *)
+Theorem C06_unroutable : forall handle_of cfg maxb s e rp r t,
+  unroutable (s_store s) r = true ->
+  srun handle_of cfg maxb s (QSend e rp r :: t) = ([Rep 111 (e_sess e) 8 (e_ctx e) (e_opts e) BNone], s).
+Proof. exact unroutable_reply. Qed.
+Print Assumptions C06_unroutable.
+
+(* conversely a request that is dispatched, on a route the personality accepts, is executed by the Message Router's dialect and answered
+   with status 0 (status 8 only if the reply cannot be rendered) *)
+Theorem C06_routable_accepted : forall handle_of cfg maxb s e rp r,
+  unroutable (s_store s) r = false -> accept cfg rp = true ->
+  respond handle_of cfg maxb s (QSend e rp r) =
+    (let (st', rep) := exec fixed maxb (s_store s) r in
+     match produce rep with
+     | Some bs => (SS st' (s_nreg s), Some (Rep 111 (e_sess e) 0 (e_ctx e) (e_opts e) (BCip bs)), true)
+     | None => (SS st' (s_nreg s), Some (Rep 111 (e_sess e) 8 (e_ctx e) (e_opts e) BNone), false)
+     end).
+Proof. exact routable_accepted. Qed.
+Print Assumptions C06_routable_accepted.
+
+Example C06_unroutable_nonvacuous :
+  unroutable ex_store (GetAttr (PNum 119 1 (Some 1) None)) = true /\ unroutable ex_store (SetAttr (PNum 2 7 (Some 1) None) [0]) = true /\
+  unroutable ex_store (GetAttr (PNum 2 1 (Some 9) None)) = false /\ unroutable ex_store (ReadTag (PSym 9 None) 1) = false /\
+  unroutable ex_store (Multiple [GetAttr (PNum 119 1 (Some 1) None)]) = false /\
+  map (fun r => (p_cmd r, p_status r)) (fst (srun (fun n => Z.of_nat (S n)) None 488 (SS ex_store 0)
+     [QRegister (ex_env 1); QSend (ex_env 2) None (GetAttr (PNum 119 1 (Some 1) None)); QList 4 (ex_env 3)])) = [(101, 0); (111, 8)].
+Proof. vm_compute. repeat split; reflexivity. Qed.
+Print Assumptions C06_unroutable_nonvacuous.
